@@ -335,4 +335,10 @@ GetAllowed(wire, segs, s, key, env) ==            \* s = Run(Prep(wire), segs, k
     IN IF PlainGet(w, segs) THEN {o}
        ELSE both(o400) \cup (IF key # "" THEN both(o401) ELSE {})
                        \cup (IF key = "" \/ KeyInLine(w, 1, key) THEN both(oget) ELSE {})
+-------------------------------------------------------------------------------
+(* What a GET reveals: the state dump carries the slice [offset, offset+limit) of the match list and of the       *)
+(* selection (src/terminal.go dumpStatus): empty when the offset lies beyond the list, never an error, whatever    *)
+(* the (non-negative) numbers are.  Numbers are capped by the driver at a value far above any list length.         *)
+DumpSlice(list, limit, offset) ==
+    IF offset >= Len(list) \/ limit <= 0 THEN <<>> ELSE SubSeq(list, offset + 1, Min2(Len(list), offset + limit))
 ================================================================================
